@@ -8,7 +8,7 @@ B  implementation (harness c05: open / tarls / pptar / ntf) vs Model/Containers.
 C  implementation vs the FORMAT (python side, no model): for a well-formed stored form of `plain`
    filesz() = len(plain), blocks = slices of plain, mtime() = the header time (0: the file's own),
    every regular member of a tar is listed once and read as its bytes; stdout of the s4 binary equals
-   the plain run.  Known-finding classes: tar_duplicate_member_path, tar_member_mtime_out_of_range.
+   the plain run.  Known-finding class: tar_duplicate_member_path.
    Multi-member gzip and multi-stream xz are outside the property's quantifier: exercised by B only.
 """
 import bz2, io, json, lzma, os, struct, tarfile, zlib
@@ -22,6 +22,7 @@ from gen_witnesses import octal, tar_header, tar_raw, base256      # the same by
 
 M32 = 0xFFFFFFFF
 CHRONO_MAX_SECS = 8210266876799          # DateTime<Utc>::MAX_UTC: +262142-12-31T23:59:59
+TAR_MTIME_MAX = CHRONO_MAX_SECS - 86400  # largest header time seconds_to_systemtime_checked accepts
 FS_MT = (1600000000, 123456789)          # mtime given to every generated container file
 FTA = {"plain": 0, "bz2": 1, "gz": 2, "lz4": 3, "tar": 4, "xz": 5}
 
@@ -151,13 +152,8 @@ def tar_duplicate_member_path(case):
     return case.get("family") == "tar" and bool(case.get("duplicate_path"))
 
 
-def tar_member_mtime_out_of_range(case):
-    """a tar member whose header mtime (base-256 field) is beyond what chrono's DateTime<Utc> holds"""
-    return case.get("family") == "tar" and case.get("mtime", 0) > CHRONO_MAX_SECS
-
-
 def classes_of(case):
-    return [n for n, f in (("tar_duplicate_member_path", tar_duplicate_member_path), ("tar_member_mtime_out_of_range", tar_member_mtime_out_of_range)) if f(case)]
+    return [n for n, f in (("tar_duplicate_member_path", tar_duplicate_member_path),) if f(case)]
 
 
 # ------------------------------------------------------------------------------ generators
@@ -464,7 +460,7 @@ def check_expect(ctx, c, o, what):
     if o["err"]:
         ctx.failure(case, "BlockReader::new succeeds on a well-formed file", "error: " + o.get("msg", "")[:200], cls)
         return 1
-    want_mt = (1, e["mtime"]) if e.get("mtime") else (0, 0)
+    want_mt = (1, e["mtime"]) if (e.get("mtime") and not (c["family"] == "tar" and e["mtime"] > TAR_MTIME_MAX)) else (0, 0)
     nb = (len(plain) + bs - 1) // bs
     if o["filesz"] != len(plain):
         ctx.failure(case, "filesz() = %d" % len(plain), "filesz() = %d" % o["filesz"], cls)
@@ -620,7 +616,7 @@ def run(ctx, scratch, quick):
             if e is not None:
                 case = dict(level="glue", family="tar" if what == "ntf" else a["meta"]["family"], what="decompress_to_ntf", path=ps.decode("utf-8", "replace"), meta=a["meta"],
                             mtime=e["mtime"], duplicate_path=bool(m.get("duplicate_path")) if what == "ntf" else False, file_hex=small(a["blob"]))
-                want_mt = (1, e["mtime"]) if e["mtime"] else ((3, 0) if what == "ntf" else (0, 0))
+                want_mt = (1, e["mtime"]) if (e["mtime"] and not (what == "ntf" and e["mtime"] > TAR_MTIME_MAX)) else ((3, 0) if what == "ntf" else (0, 0))
                 got = (st, sz, content, (mc, ms))
                 if got != (0, len(data), data, want_mt):
                     ctx.failure(case, "extracted %d bytes = the member's data, mtime %s" % (len(data), want_mt), "status %d, size %d, content equal %s, mtime %s" % (st, sz, content == data, (mc, ms)), classes_of(case))
